@@ -6,7 +6,7 @@
  kind=line   o_c09: one line per read -> item i after at most the reads that deliver its line"""
 from streams import docs
 
-OFF = {"o_c01": 1, "o_c04": 2, "o_c05": 1, "o_exp": 2, "o_c09": 2}
+OFF = {"o_c01": 1, "o_c04": 2, "o_c05": 1, "o_exp": 2, "o_c09": 2, "o_rt": 1, "o_b2c": 1}
 
 def gen_chunk(rng, n):
     out = []
@@ -85,7 +85,33 @@ def gen_line(rng, n):
         out.append("o_c09 %s " % (",".join(str(w) for w in want) or "-") + docs.setup(parser, ty, flags, data, (evs, 0, 16384, "r")))
     return out
 
-KINDS = {"chunk": gen_chunk, "fault": gen_fault, "safe": gen_safe, "expect": gen_expect, "line": gen_line}
+def gen_rt(rng, n):
+    out = []
+    # constants through the validating constructors
+    for kind, strs in (("b", ["0", "1", "0101", "", "2", "1" * 70, "0b1"]), ("d", ["0", "7", "-12", "1f", "a", "", "-", "12-3", "９", "1" * 30]),
+                       ("h", ["0", "ff", "DEADbeef", "g", "", "0x1", "a" * 40])):
+        for t in strs:
+            out.append("o_b2c %s %s" % (kind, docs.hexs(t.encode())))
+    while len(out) < n:
+        parser, ty, flags, data, _ = docs.gen_doc(rng, parser=rng.choice(["cnf", "wcnf", "gcnf", "aag", "aig", "btor2"]))
+        out.append("o_rt " + docs.setup(parser, ty, flags, data, None))
+    return out
+
+def gen_limits(rng, n):
+    out = []
+    for (parser, ty, flags, data, exp) in docs.limit_cases(rng):
+        sched = docs.gen_schedule(rng, len(data)) if rng.random() < 0.3 else None
+        out.append("o_exp %s " % exp.encode().hex() + docs.setup(parser, ty, flags, data, sched))
+    return out
+
+def gen_corrupt(rng, n):
+    out = []
+    for (parser, ty, flags, data, exp) in docs.corruption_cases(rng, n):
+        sched = docs.gen_schedule(rng, len(data)) if rng.random() < 0.3 else None
+        out.append("o_exp %s " % exp.encode().hex() + docs.setup(parser, ty, flags, data, sched))
+    return out
+
+KINDS = {"limits": gen_limits, "corrupt": gen_corrupt, "rt": gen_rt, "chunk": gen_chunk, "fault": gen_fault, "safe": gen_safe, "expect": gen_expect, "line": gen_line}
 
 def gen(rng, n, tier, kind="chunk", **kw):
     return KINDS[kind](rng, n)
@@ -94,6 +120,9 @@ def category(case):
     t = case.split()
     return t[0] + "/" + t[OFF[t[0]]]
 
-def nontrivial(case):
+def _len(case):
     t = case.split()
-    return len(t[OFF[t[0]] + 3]) >= 16
+    return len(t[2]) if t[0] == "o_b2c" else len(t[OFF[t[0]] + 3])
+
+def nontrivial(case):
+    return _len(case) >= 16 or case.startswith("o_b2c")
